@@ -627,7 +627,13 @@ func (p *CodeBuilder) CallInlineClosureStart(sig *types.Signature, arity int, el
 	if sig.Variadic() && !ellipsis {
 		p.SliceLit(getParam(sig, n1).Type().(*types.Slice), arity-n1)
 	}
-	for i := n1; i >= 0; i-- {
+	// the parameter variables are initialised in parameter order, as the arguments of a call are
+	// evaluated left to right
+	vals := make([]*internal.Elem, n1+1)
+	copy(vals, p.stk.GetArgs(n1+1))
+	p.stk.PopN(n1 + 1)
+	for i, val := range vals {
+		p.stk.Push(val)
 		p.emitVar(pkg, closure, getParam(sig, i), true)
 	}
 	// The arguments have been consumed by the parameter initialisers: the body's
